@@ -20,6 +20,9 @@ def setup_all(build_harness):
         done.add(pkg)
         if not build_harness(cfg.get("profiles", ["dev", "release"]), pkg):
             return 2
+        for v in cfg.get("variants", []):
+            if not build_harness(cfg.get("profiles", ["dev", "release"]), v["package"]):
+                return 2
     return 0
 
 
